@@ -646,6 +646,7 @@ def run_combo(args):
                 rc, got, _, err = generate(info, combo, "canon", None, out, workdir, relocate=True)
                 res["runs"] += 1
                 res["fired"]["generator-binary-at-another-path"] = res["fired"].get("generator-binary-at-another-path", 0) + 1
+                res["fired"]["other-working-directory-timezone-locale-home-user-yangpath"] = res["fired"].get("other-working-directory-timezone-locale-home-user-yangpath", 0) + 1
                 if rc != 0 or got != ref:
                     f, detail = first_diff(refdir, out, ref, got)
                     res["violations"].append({"combo": list(combo), "map": "canon", "sites": None, "rc": rc, "file": f, "environment": "relocated-binary",
